@@ -39,15 +39,23 @@ theorem rule_toPoly_sem (ρ : String → ℝ) (hρ : AppModel ρ) (args : List P
     (hn : e.noPowApp = true) (h : e.toPoly args = some v) :
     Poly.eval ρ v = e.sem (fun i => Poly.eval ρ (args[i]?.getD Poly.zero)) := toPoly_sem ρ hρ args e v hn h
 
-/-- **Chain rule through a unary function atom** — the step `datom` performs: the atom `f(q)` moves with derivative
-`rule(f)(q) · q'` at every point of the claimed domain of `f`. -/
-theorem unary_atom_chain (f : String) (r : SE) (q dq v : Poly) (ρ : ℝ → String → ℝ) (a : String) (t0 : ℝ)
-    (hr : specRule f 1 0 = some r) (hf : f ∈ provedNames) (hv : r.toPoly [q] = some v) (hρ : AppModel (ρ t0))
+/-- **Chain rule through a unary function atom** — the step `datom` performs: if the atom `a` denotes `f` of the value
+of `q` along the curve and `q` moves with derivative `eval dq`, then `a` moves with derivative
+`eval (rule(f)(q) · dq)` at every point of the claimed domain of `f` (rule = the row of `specRules` that
+`specRule f 1 0` returns, see `specRule_lookup`). -/
+theorem unary_atom_chain (f : String) (e : Entry) (q dq v : Poly) (ρ : ℝ → String → ℝ) (a : String) (t0 : ℝ)
+    (hr : specRules.find? (fun e => e.name == f && e.arity == 1 && e.pos == 0) = some e) (hf : f ∈ provedNames)
+    (hv : e.deriv.toPoly [q] = some v) (hρ : AppModel (ρ t0))
     (ha : ∀ t, ρ t a = sem1 f (Poly.eval (ρ t) q))
     (hq : HasDerivAt (fun t => Poly.eval (ρ t) q) (Poly.eval (ρ t0) dq) t0)
     (hdom : Dom f 0 (fun i => Poly.eval (ρ t0) (([q] : List Poly)[i]?.getD Poly.zero))) :
     HasDerivAt (fun t => ρ t a) (Poly.eval (ρ t0) (v * dq)) t0 :=
-  unary_atom_hasDerivAt f r q dq v ρ a t0 hr hf hv hρ ha hq hdom
+  unary_atom_hasDerivAt f e q dq v ρ a t0 hr hf hv hρ ha hq hdom
+
+/-- the rule `datom` uses for `f` is the row found in the table -/
+theorem specRule_lookup {f : String} {n i : Nat} {e : Entry}
+    (h : specRules.find? (fun e => e.name == f && e.arity == n && e.pos == i) = some e) : specRule f n i = some e.deriv :=
+  specRule_of_find h
 
 /-! ### the formal partial derivative on `Poly` -/
 
